@@ -304,6 +304,11 @@ class _Context:
                 and name.parent.children[1] == '=':
             # The name of a keyword argument is not a variable.
             return
+        definition = name.get_definition(import_name_always=True)
+        if definition is not None and definition.type in ('import_name', 'import_from') \
+                and not name.is_definition():
+            # Only the names that an import binds are variables.
+            return
 
         if parent_type == 'global_stmt':
             self._global_names.append(name)
@@ -370,6 +375,12 @@ class _Context:
                 if parent.type == 'param' and parent.name == name:
                     # Skip those here, these definitions belong to the next
                     # scope.
+                    continue
+
+                definition = name.get_definition()
+                if definition is not None \
+                        and definition.type in ('import_name', 'import_from'):
+                    # Python doesn't check the names that imports bind.
                     continue
 
                 if name.is_definition():
